@@ -365,6 +365,26 @@ def run_case(case: Any, pid: str) -> Verdict:
         if cap is not None and cap3 is not None and abs(cap3 - k * cap) > 1e-9 * max(1.0, abs(k * cap)):
             v.fail(f"capacity {cap} scaled by {k} gave {cap3}")
 
+    # metamorphic: shifting every battery's limits and SoC by a common offset changes nothing (the
+    # documented formula depends on (soc - lower) / (upper - lower) only); evaluated on the same instances
+    for delta in (10.0, -5.0, 0.5):
+        shifted = [dict(b) for b in bats]
+        for b in shifted:
+            for key in ("lo", "hi", "soc"):
+                if b[key] is not None:
+                    b[key] = b[key] + delta
+        soc5, cap5 = _calc(shifted, calcs)
+        ref5, cref5, _, _ = _reference(shifted)
+        if (soc5 is None) != (ref5 is None):
+            v.fail(f"limits and SoC shifted by {delta}: SoC None-ness {soc5} vs reference {ref5}")
+        elif soc5 is not None and ref5 is not None and ref5 >= 0 and abs(soc5 - float(ref5)) > 1e-6:
+            v.fail(f"limits and SoC shifted by {delta}: SoC {soc5!r} != documented weighted mean {float(ref5)!r}")
+        if (cap5 is None) != (cref5 is None) or (
+                cap5 is not None and cref5 is not None and abs(cap5 - float(cref5)) > 1e-6 * max(1.0, abs(float(cref5)))):
+            v.fail(f"limits and SoC shifted by {delta}: capacity {cap5} != documented sum {None if cref5 is None else float(cref5)}")
+        if v.violations:
+            break
+
     # the same instances asked again for the original data must answer the same
     soc4, cap4 = _calc(bats, calcs)
     if (soc4, cap4) != (soc, cap) and not (soc4 != soc4 and soc != soc):
